@@ -199,3 +199,35 @@ _ADDENDA = {
 }
 for _k, _t in _ADDENDA.items():
     CLAIMS[_k]["text"] = CLAIMS[_k]["text"].rstrip() + " " + _t
+
+# additions of seed round 9 and of the obligations added with it: (technique suffix, text suffix)
+_ROUND9 = {
+    "C01": ("regular-expression language obligations on LINE_SEPARATOR at its use sites (vf/rxcheck.py)",
+            "The pattern the error rendering splits lines with accepts exactly LF, CR and CRLF and takes CRLF whole."),
+    "C02": ("regular-expression language obligations on LINE_SEPARATOR.split in parse_block_string (vf/rxcheck.py)",
+            "Block-string lines are split at exactly LF, CR and CRLF (CRLF whole), for all strings; bounded: the tree is unchanged by re-spelling the ignored tokens between its tokens."),
+    "C07": ("contract-based deductive verification of coerce_float (pyvc/z3)",
+            "coerce_float returns finite floats only, accepts exactly finite floats, bools and integers below 2**1024, and raises only ValueError (int / bool / float / None inputs)."),
+    "C10": ("contract-based deductive verification of coerce_float, the Float serialiser (pyvc/z3)",
+            "A Float leaf written into a response is finite (NaN and the infinities, which strict JSON cannot carry, are rejected), for all int / bool / float / None inputs."),
+    "C12": ("regular-expression language obligations on the default-value printer's _INT_RE / _FLOAT_RE / _NAME_RE (vf/rxcheck.py)",
+            "Strings printed unquoted as numbers / names in default values are exactly the grammar's IntValue / FloatValue / Name, for all strings; bounded: string payloads (astral, quotes, backslashes, controls) at every string position and names equal up to case."),
+    "C13": ("regular-expression language obligation VALID_NAME_RE == Name without a leading __ (vf/rxcheck.py) + frame obligations: no function of the validation module writes into the schema it judges",
+            "_is_valid_name accepts exactly the grammar's names that do not begin with two underscores, for all strings; validating leaves no trace on the schema, so the verdict is a function of its current state."),
+    "C14": ("derived-state obligations on Schema (every memo attribute is rebuilt by _invalidate_and_rebuild_caches)",
+            "Every attribute a Schema method fills on demand is assigned afresh by the helper every in-place change ends with."),
+    "C15": ("regular-expression language obligations on the default-value printer's patterns + decorator-memo obligations (vf/rxcheck.py, vf/modstate.py)",
+            "Reported default values classify strings as numbers / names exactly as the grammar does; no process-wide memo of the renderer conflates 1, true and 1.0."),
+    "C16": ("trace contract on apply_middlewares (Engine P)",
+            "apply_middlewares wraps every middleware exactly once around the chain built so far, in sequence order (last outermost); members of a combined instrumentation may implement any subset of the hooks."),
+    "C17": ("", "The response stream is one pass over the source however it is consumed (resumed after a break, advanced by __anext__ first)."),
+    "C08": ("", "Runtime.gather_values gives the list of member values position by position, also when one pending value stands at several positions, for every completion order."),
+    "C18": ("trace contracts on ChainedVisitor.enter / leave (Engine P)",
+            "Chained visitors iterate the chain's current members forward on enter and reversed on leave, each once per node event, and do not swallow a member's skip signal (all paths)."),
+    "C06": ("", "Identical arguments in different relative orders on same-key fields; several subscriptions sharing fragments."),
+    "C20": ("", "Fragments on sibling members below a field narrowed from an abstract type to one member."),
+}
+for _k, (_tech, _t) in _ROUND9.items():
+    if _tech:
+        CLAIMS[_k]["technique"] = CLAIMS[_k]["technique"].rstrip() + " + " + _tech
+    CLAIMS[_k]["text"] = CLAIMS[_k]["text"].rstrip() + " " + _t
